@@ -73,7 +73,7 @@ func osClock(L *LState) int {
 }
 
 func osDiffTime(L *LState) int {
-	L.Push(LNumber(L.CheckInt64(1) - L.CheckInt64(2)))
+	L.Push(LNumber(L.CheckInt64(1) - L.OptInt64(2, 0)))
 	return 1
 }
 
